@@ -39,7 +39,7 @@ Send(g, s, t) == \/ "send_messages" \in g \/ "send_messages" \in s \/ "send_mess
 
 (* rule name -> decision; rules of the Permissioner and, with the same names, the operations of the API *)
 Granted(rule, g, s, t) ==
-    CASE rule \in {"get_stats", "get_clients", "get_client"} -> ServerInfo(g)
+    CASE rule \in {"get_stats", "get_clients", "get_client", "snapshot"} -> ServerInfo(g)   \* (snapshot: an operation of the API, not a Permissioner rule)
       [] rule \in {"get_user", "get_users"} -> ReadUsers(g)
       [] rule \in {"create_user", "delete_user", "update_user", "update_permissions", "change_password"} -> ManageUsers(g)
       [] rule = "get_streams" -> GetStreams(g)
